@@ -86,7 +86,9 @@ func (x *Exec) exec(fr *frame, ins ssa.Instruction) {
 	case *ssa.Extract:
 		fr.regs[ins] = x.get(fr, ins.Tuple).(Tuple)[ins.Index]
 	case *ssa.Store:
-		x.store(x.get(fr, ins.Addr).(Ptr), x.get(fr, ins.Val))
+		ptr := x.get(fr, ins.Addr).(Ptr)
+		x.racePtr(ptr, true)
+		x.store(ptr, x.get(fr, ins.Val))
 	case *ssa.Defer:
 		fn, args := x.prepareCall(fr, &ins.Call)
 		fr.defers = append(fr.defers, deferred{fn: fn, args: args, call: &ins.Call})
@@ -106,6 +108,7 @@ func (x *Exec) exec(fr *frame, ins ssa.Instruction) {
 		fr.regs[ins] = x.selectOp(fr, ins)
 	case *ssa.Send:
 		ch := x.get(fr, ins.Chan).(*ChanV)
+		x.raceRelease(ch, true)
 		ch.Buf = append(ch.Buf, x.get(fr, ins.X))
 	default:
 		x.unsupported("SSA instruction %T", ins)
@@ -400,6 +403,7 @@ func (x *Exec) unop(fr *frame, ins *ssa.UnOp) Value {
 	v := x.get(fr, ins.X)
 	switch ins.Op {
 	case token.MUL:
+		x.racePtr(v.(Ptr), false)
 		return x.load(v.(Ptr))
 	case token.NOT:
 		return c.Not(v.(*term.Term))
@@ -729,6 +733,7 @@ func (x *Exec) mapFind(m *MapV, key Value) int {
 }
 
 func (x *Exec) mapGet(m *MapV, key Value) (Value, bool) {
+	x.raceMap(m, false)
 	i := x.mapFind(m, key)
 	if i < 0 {
 		return nil, false
@@ -737,6 +742,7 @@ func (x *Exec) mapGet(m *MapV, key Value) (Value, bool) {
 }
 
 func (x *Exec) mapSet(m *MapV, key, val Value) {
+	x.raceMap(m, true)
 	i := x.mapFind(m, key)
 	if i >= 0 {
 		m.Vals[i] = val
@@ -757,6 +763,7 @@ type rangeIter struct {
 func (x *Exec) rangeInit(v Value) Value {
 	switch t := v.(type) {
 	case *MapV:
+		x.raceMap(t, false)
 		it := &rangeIter{m: t}
 		n := 0
 		if t != nil {
